@@ -67,7 +67,7 @@ pub fn run(env: &Env, run: &Run) -> (Stats, Coverage) {
     st.sample(json!({"input": ["a", "U+3000", "U+FB01", "A"], "expected": "Ok(\"a U+FB01 A\"): ideographic space -> U+0020, ligature and case untouched"}));
     st.sample(json!({"input": ["e", "U+0301", "U+00A0"], "expected": "Ok(U+00E9 U+0020)"}));
     let cov = Coverage {
-        rule: format!("every string of length <= {} over a 21-symbol alphabet (ASCII space, Zs of 2 and 3 bytes, NFC-changing sequences, compatibility characters, 1-4 byte letters, disallowed/unassigned/contextual) x {{prepare, enforce}} + pumped runs and ASCII block strings + every scalar value in 9 templates and next to each of its bit-16..20 aliases; oracle = non-empty -> FreeformClass(first offender) -> map non-ASCII Zs (UnicodeData gc=Zs) to U+0020 -> NFC -> non-empty; equality of whole results, so any other alteration is visible; non-trivial = a step changes the string", n),
+        rule: format!("every string of length <= {} over a 21-symbol alphabet (ASCII space, Zs of 2 and 3 bytes, NFC-changing sequences, compatibility characters, 1-4 byte letters, disallowed/unassigned/contextual) x {{prepare, enforce}} + pumped runs and ASCII block strings + every scalar value in 9 templates and next to each of its 16 other-plane aliases; oracle = non-empty -> FreeformClass(first offender) -> map non-ASCII Zs (UnicodeData gc=Zs) to U+0020 -> NFC -> non-empty; equality of whole results, so any other alteration is visible; non-trivial = a step changes the string", n),
         alphabet: json!(sigma.iter().map(|c| format!("U+{:04X}", *c as u32)).collect::<Vec<_>>()),
         bound_completed: format!("length <= {} ({} strings) x 2 ops; sweep 1,112,064 x 9 templates x 2", n, tree_size(sigma.len(), n)),
         exhaustive: false,
